@@ -21,6 +21,7 @@ class TooBig(Exception):
     pass
 
 MAX_BITS = 70000
+MAX_EXP = 4096
 
 def _chk(v):
     if v.numerator.bit_length() > MAX_BITS or v.denominator.bit_length() > MAX_BITS:
@@ -49,7 +50,7 @@ def ev(t):
             if b.denominator != 1:
                 raise DontCare()
             n = b.numerator
-            if abs(n) > 4096:
+            if abs(n) > MAX_EXP:
                 raise TooBig()
             if a == 0:
                 if n == 0:
